@@ -209,33 +209,72 @@ Example ex_root :
 Proof. vm_compute. repeat split. Qed.
 
 (* ====================================================================== server level
-   rest.Server: AddRoutes/AddRoute with rest.WithPrefix (path.Join), groups, and
-   engine.bindRoutes at Start (ServerModel.v). *)
+   rest.Server: the user's route tables (slices) are mounted by ANY sequence of AddRoutes /
+   AddRoute calls (same slice or sub-slices of it any number of times, on any number of
+   servers, RouteOptions in any order) and bound by Start (ServerModel.v: [run opt_real], a heap
+   model in which engine groups may alias the user's slices).  [spec_regs tables evs s] is what
+   the user wrote: the union, in order, of the table slices mounted on server s, every
+   WithPrefix applied in order — no store, no aliasing. *)
 
-(* What Start binds is exactly the list of prefixed routes, in order: if it succeeds the
-   router is [router_of] of that list (so EVERY theorem above applies with
-   regs := server_routes groups), every Handle call was accepted and the table is the list
-   of routes itself, each cleaned; otherwise Start died with the first rejection the route
-   list prescribes (duplicate after prefixing and cleaning, bad method, unrooted result). *)
-Theorem server_routes_are_prefixed_routes : forall nf na cors gs,
-  let regs := server_routes gs in
-  match server_start nf na cors gs with
-  | Started r =>
-    r = router_of nf (na || cors) regs /\
-    all_ok (reg_results [] regs) /\
-    table_of regs = map to_route regs
-  | StartFailed e =>
-    e <> RegOk /\
-    exists pre g post, regs = (pre ++ g :: post)%list /\
-      all_ok (reg_results [] pre) /\
-      reg_spec (table_of pre) (rmethod g) (rpath g) = e
-  end.
-Proof. exact L_server_routes_are_prefixed_routes. Qed.
-Print Assumptions server_routes_are_prefixed_routes.
+(* Registration is a function of what the user wrote: after every sequence of events the user's
+   tables are as written, Server.Routes() of every server is [spec_regs], and every Start ended
+   as binding [spec_regs] (of the events before it) on a new router ends. *)
+Theorem registration_is_union_of_prefixed_tables : forall cfgs tables evs,
+  let w := run opt_real cfgs tables evs in
+  wstore w = tables /\
+  (forall s, engine_regs tables (wgroups w) s = spec_regs tables evs s) /\
+  wstarts w = starts_from cfgs tables [] evs.
+Proof. exact L_run_real. Qed.
+Print Assumptions registration_is_union_of_prefixed_tables.
 
-Theorem server_starts_iff_no_rejection : forall nf na cors gs,
-  (exists r, server_start nf na cors gs = Started r) <-> all_ok (reg_results [] (server_routes gs)).
-Proof. exact L_start_iff_all_ok. Qed.
+Theorem user_tables_untouched : forall cfgs tables evs,
+  wstore (run opt_real cfgs tables evs) = tables.
+Proof. exact L_tables_untouched. Qed.
+Print Assumptions user_tables_untouched.
+
+Theorem start_binds_what_the_user_wrote : forall cfgs tables evs s,
+  start_of (wstarts (run opt_real cfgs tables evs)) s =
+  if has_start s evs then Some (spec_start cfgs tables evs s) else None.
+Proof. exact L_start_is_spec. Qed.
+Print Assumptions start_binds_what_the_user_wrote.
+
+(* what happens on other servers (mounts of the same tables, their Start) does not matter *)
+Theorem other_servers_irrelevant : forall tables evs s,
+  spec_regs tables evs s = spec_regs tables (filter (concerns s) evs) s.
+Proof. exact L_other_servers_irrelevant. Qed.
+Print Assumptions other_servers_irrelevant.
+
+(* Dispatch through a started server = the property's dispatch on the union of the
+   prefix-extended tables: the router is [router_of] of that list (so EVERY theorem above
+   applies with regs := spec_regs ...), every Handle call was accepted, the table is the list of
+   routes itself, each cleaned, and every response obeys the full case table. *)
+Theorem server_dispatch_on_user_tables : forall cfgs tables evs s r,
+  start_of (wstarts (run opt_real cfgs tables evs)) s = Some (Started r) ->
+  let c := nth s cfgs default_cfg in
+  let regs := spec_regs tables (before_start s evs) s in
+  r = router_of (sc_nf c) (sc_na c || sc_cors c) regs /\
+  all_ok (reg_results [] regs) /\
+  table_of regs = map to_route regs /\
+  forall m p segs resp, clean_path p = Some segs -> In resp (serve_allowed r m p) ->
+    resp_ok (map to_route regs) (sc_nf c) (sc_na c || sc_cors c) m segs resp.
+Proof. exact L_server_dispatch. Qed.
+Print Assumptions server_dispatch_on_user_tables.
+
+(* otherwise Start died with the first rejection that list prescribes (duplicate after
+   prefixing and cleaning, bad method, unrooted result) *)
+Theorem server_start_fails_as_prescribed : forall cfgs tables evs s e,
+  start_of (wstarts (run opt_real cfgs tables evs)) s = Some (StartFailed e) ->
+  let regs := spec_regs tables (before_start s evs) s in
+  e <> RegOk /\
+  exists pre g post, regs = (pre ++ g :: post)%list /\ all_ok (reg_results [] pre) /\
+                     reg_spec (table_of pre) (rmethod g) (rpath g) = e.
+Proof. exact L_server_start_fails. Qed.
+Print Assumptions server_start_fails_as_prescribed.
+
+Theorem server_starts_iff_no_rejection : forall cfgs tables evs s, has_start s evs = true ->
+  ((exists r, start_of (wstarts (run opt_real cfgs tables evs)) s = Some (Started r)) <->
+   all_ok (reg_results [] (spec_regs tables (before_start s evs) s))).
+Proof. exact L_server_starts_iff. Qed.
 Print Assumptions server_starts_iff_no_rejection.
 
 (* a rooted prefix: the pattern the router sees is the cleaning of
@@ -245,24 +284,15 @@ Theorem prefixed_route_segments : forall gt p, p <> "" ->
 Proof. exact L_prefixed_segments. Qed.
 Print Assumptions prefixed_route_segments.
 
-(* the response case table of a started server, over the list of prefixed routes *)
-Theorem server_response_cases : forall nf na cors gs r m p segs resp,
-  server_start nf na cors gs = Started r ->
-  clean_path p = Some segs ->
-  In resp (serve_allowed r m p) ->
-  resp_ok (map to_route (server_routes gs)) nf (na || cors) m segs resp.
-Proof. exact L_server_allowed_cases. Qed.
-Print Assumptions server_response_cases.
-
 (* rest.WithCors() replaces the 405/Allow clause: OPTIONS is always 204 (a registered
    OPTIONS route is never dispatched) and a would-be 405 is a 404 without Allow.  This is
    the option's documented purpose; it is outside the property's quantifier (route tables on
    the router with its default not-allowed behaviour) and is pinned here so that it cannot
    change unnoticed. *)
-Theorem cors_replaces_405 : forall nf na gs r m p segs,
-  server_start nf na true gs = Started r ->
+Theorem cors_replaces_405 : forall nf na regs r m p segs,
+  bind_routes (new_router nf (na || true)) regs = Started r ->
   clean_path p = Some segs ->
-  let T := map to_route (server_routes gs) in
+  let T := map to_route regs in
   sserve true r "OPTIONS" p = SCors204 /\
   (m <> "OPTIONS" -> no_own T m segs ->
    (exists t, In t T /\ tm t <> m /\ matches (tpat t) segs) ->
@@ -270,29 +300,46 @@ Theorem cors_replaces_405 : forall nf na gs r m p segs,
 Proof. exact L_cors_behaviour. Qed.
 Print Assumptions cors_replaces_405.
 
-Definition ex_groups : list group :=
-  [ mkGroup (Some "/api") true [mkReg "GET" "/a/:x" 0%Z; mkReg "GET" "b" 1%Z; mkReg "POST" "/a/b/" 2%Z];
-    mkGroup None false [mkReg "GET" "/a/:x" 3%Z];
-    mkGroup (Some "/api/") true [mkReg "PUT" "//c/../d" 4%Z; mkReg "GET" "" 5%Z] ].
+(* ---- non-vacuity: ONE table of three routes; mounted under /v1 and (a sub-slice, wrapped) under
+   /v2 on server 0, shared with server 1 under two stacked prefixes through AddRoute; server 0
+   starts before server 1 mounts anything. *)
+Definition ex_users : list reg := [mkReg "GET" "/users/:id" 0%Z; mkReg "POST" "/users" 1%Z; mkReg "GET" "users/" 2%Z].
+Definition ex_events : list event :=
+  [ EMount (mkMount 0 0 0 3 false None [OPrefix "/v1"; OOther]);
+    EMount (mkMount 0 0 0 2 false (Some 1%Z) [OOther; OPrefix "/v2/"]);
+    EStart 0;
+    EMount (mkMount 1 0 1 3 true None [OPrefix "/in"; OPrefix "/out"]);
+    EStart 1 ].
+Definition ex_cfgs : list scfg := [mkCfg false false false true false; default_cfg].
 
-Example ex_server_routes :
-  map (fun g => (rmethod g, rpath g)) (server_routes ex_groups) =
-  [("GET", "/api/a/:x"); ("GET", "/api/b"); ("POST", "/api/a/b"); ("GET", "/a/:x"); ("PUT", "/api/d"); ("GET", "/api")].
-Proof. vm_compute. reflexivity. Qed.
-
-Example ex_server_serves :
-  exists r, server_start false false false ex_groups = Started r /\
-    serve r "GET" "/api/a/1" = RHandler 0%Z [("x", "1")] /\
-    serve r "GET" "/a/7" = RHandler 3%Z [("x", "7")] /\
-    serve r "GET" "/api" = RHandler 5%Z [] /\
-    serve r "POST" "/api/a/1" = RNotAllowed ["GET"] /\
-    mw_expected true ex_groups 4%Z = [1000%Z; 2%Z] /\ mw_expected true ex_groups 3%Z = [1000%Z].
-Proof. eexists. vm_compute. repeat split. Qed.
-
-Example ex_server_duplicate_across_groups :
-  server_start false false false
-    [mkGroup (Some "/v1") false [mkReg "GET" "/a" 0%Z]; mkGroup (Some "/v1/") false [mkReg "GET" "a/" 1%Z]]
-  = StartFailed RegDuplicate
-  /\ server_start false false false [mkGroup (Some "v1") false [mkReg "GET" "/a" 0%Z]] = StartFailed RegInvalidPath.
+Example ex_spec_regs :
+  map (fun g => (rmethod g, rpath g, rhandler g)) (spec_regs [ex_users] ex_events 0) =
+  [("GET", "/v1/users/:id", 0%Z); ("POST", "/v1/users", 1%Z); ("GET", "/v1/users", 2%Z);
+   ("GET", "/v2/users/:id", 200000%Z); ("POST", "/v2/users", 200001%Z)]
+  /\ map (fun g => (rmethod g, rpath g)) (spec_regs [ex_users] ex_events 1) =
+     [("POST", "/out/in/users"); ("GET", "/out/in/users")].
 Proof. vm_compute. split; reflexivity. Qed.
 
+Example ex_server_serves :
+  exists r0 r1,
+    start_of (wstarts (run opt_real ex_cfgs [ex_users] ex_events)) 0 = Some (Started r0) /\
+    start_of (wstarts (run opt_real ex_cfgs [ex_users] ex_events)) 1 = Some (Started r1) /\
+    serve r0 "GET" "/v1/users/7" = RHandler 0%Z [("id", "7")] /\
+    serve r0 "GET" "/v2/users/8" = RHandler 200000%Z [("id", "8")] /\
+    serve r0 "GET" "/v2/v1/users/7" = RNotFound /\
+    serve r0 "PUT" "/v1/users" = RNotAllowed ["GET"; "POST"] /\
+    serve r1 "GET" "/out/in/users" = RHandler 2%Z [] /\
+    serve r1 "GET" "/v1/users/7" = RNotFound /\
+    mw_expected (nth 0 ex_cfgs default_cfg) 200000%Z = [1000%Z; 1%Z] /\
+    mw_expected (nth 0 ex_cfgs default_cfg) 0%Z = [1000%Z].
+Proof. eexists. eexists. vm_compute. repeat split. Qed.
+
+Example ex_server_duplicate_across_mounts :
+  spec_start [default_cfg] [ex_users]
+    [EMount (mkMount 0 0 0 3 false None [OPrefix "/v1"]); EMount (mkMount 0 0 0 1 false None [OPrefix "/v1/"]); EStart 0] 0
+  = StartFailed RegDuplicate
+  /\ spec_start [default_cfg] [ex_users] [EMount (mkMount 0 0 0 3 false None [OPrefix "v1"]); EStart 0] 0
+     = StartFailed RegInvalidPath
+  /\ spec_start [default_cfg] [ex_users] [EMount (mkMount 0 0 0 3 false None []); EStart 0] 0
+     = StartFailed RegInvalidPath.
+Proof. vm_compute. repeat split; reflexivity. Qed.
